@@ -110,7 +110,7 @@ var perturbations = []perturb{
 	{"frozen.foreign-signature", "reject", func(w *CfgWorld, m *configpb.LogMultiConfig, i int) {
 		c := m.LogConfigs.Config[i]
 		if c.PublicKey == nil {
-			_, c.PublicKey = LogKey(w.keys[c.Prefix])
+			_, c.PublicKey = LogKey(w.keyFor(c.Prefix))
 		}
 		c.FrozenSth = signedFrozen(oracle.Keys("p256")[9], 12, 946684800123)
 	}},
@@ -118,17 +118,17 @@ var perturbations = []perturb{
 		c := m.LogConfigs.Config[i]
 		c.IsMirror = false
 		if c.PrivateKey == nil {
-			c.PrivateKey, _ = LogKey(w.keys[c.Prefix])
+			c.PrivateKey, _ = LogKey(w.keyFor(c.Prefix))
 		}
-		c.FrozenSth = signedFrozen(w.keys[c.Prefix], 12, 946684800123)
+		c.FrozenSth = signedFrozen(w.keyFor(c.Prefix), 12, 946684800123)
 		c.PublicKey = nil
 	}},
 	{"frozen.tampered", "reject", func(w *CfgWorld, m *configpb.LogMultiConfig, i int) {
 		c := m.LogConfigs.Config[i]
 		if c.PublicKey == nil {
-			_, c.PublicKey = LogKey(w.keys[c.Prefix])
+			_, c.PublicKey = LogKey(w.keyFor(c.Prefix))
 		}
-		c.FrozenSth = signedFrozen(w.keys[c.Prefix], 12, 946684800123)
+		c.FrozenSth = signedFrozen(w.keyFor(c.Prefix), 12, 946684800123)
 		c.FrozenSth.TreeSize++
 	}},
 	{"window.inverted", "reject", func(w *CfgWorld, m *configpb.LogMultiConfig, i int) {
@@ -230,6 +230,11 @@ var perturbations = []perturb{
 		// the string only matters when the CTFE backend is selected
 		c := m.LogConfigs.Config[i]
 		c.ExtraDataIssuanceChainStorageBackend, c.CtfeStorageConnectionString = configpb.LogConfig_ISSUANCE_CHAIN_STORAGE_BACKEND_TRILLIAN_GRPC, "mysql"
+	}},
+	{"prefix.slashes", "harmless", func(w *CfgWorld, m *configpb.LogMultiConfig, i int) {
+		c := m.LogConfigs.Config[i]
+		forms := []string{"/%s", "%s/", "/%s/", "%s//", "/%s//"}
+		c.Prefix = fmt.Sprintf(forms[kernel.HashChoice(w.s.Seed, "prefix.slashes|"+c.Prefix, len(forms))], c.Prefix)
 	}},
 	{"prefix.empty", "reject", func(w *CfgWorld, m *configpb.LogMultiConfig, i int) { m.LogConfigs.Config[i].Prefix = "" }},
 	{"prefix.duplicate", "reject", func(w *CfgWorld, m *configpb.LogMultiConfig, i int) {
@@ -422,7 +427,26 @@ func (w *CfgWorld) Init(s *kernel.Sim) {
 	s.Logf("config verdict=%s perturbations=%v logs=%d backends=%d", w.verdict, w.why, nLogs, nBE)
 }
 
-var twinRE = regexp.MustCompile(`-twin[0-9]*$`)
+var baseRE = regexp.MustCompile(`log[0-9]+`)
+
+// keyFor finds the log key of a configuration by its prefix, whatever slashes
+// or twin suffix an edit decorated it with.
+func (w *CfgWorld) keyFor(prefix string) *oracle.Key {
+	return w.keys[baseRE.FindString(prefix)]
+}
+
+// endpointKeys lists the handler paths of an instance that end in the given
+// endpoint path - whatever form the instance gave the prefix.
+func endpointKeys(inst *rctfe.Instance, endpoint string) []string {
+	var out []string
+	for k := range inst.Handlers {
+		if strings.HasSuffix(k, endpoint) {
+			out = append(out, k)
+		}
+	}
+	sort.Strings(out)
+	return out
+}
 
 var tmpDirRE = regexp.MustCompile(`[^"\\ ]*/TestSim[0-9]+/[0-9]+`)
 
@@ -574,10 +598,11 @@ func (m *mirrorStore) GetMirrorSTH(ctx context.Context, maxTreeSize int64) (*ct.
 func (w *CfgWorld) bootAndLive(s *kernel.Sim) {
 	t := s.T
 	type booted struct {
-		cfg   *configpb.LogConfig
-		inst  *rctfe.Instance
-		be    *Backend
-		store *mirrorStore
+		cfg    *configpb.LogConfig
+		inst   *rctfe.Instance
+		be     *Backend
+		store  *mirrorStore
+		prefix string // as the instance spells it in its handler paths
 	}
 	var bs []*booted
 	for i, c := range w.multi.GetLogConfigs().GetConfig() {
@@ -602,9 +627,14 @@ func (w *CfgWorld) bootAndLive(s *kernel.Sim) {
 		b.inst = inst
 		bs = append(bs, b)
 		// handler set
-		_, hasAdd := inst.Handlers["/"+c.Prefix+"/ct/v1/add-chain"]
-		_, hasPre := inst.Handlers["/"+c.Prefix+"/ct/v1/add-pre-chain"]
-		_, hasSTH := inst.Handlers["/"+c.Prefix+"/ct/v1/get-sth"]
+		// by endpoint suffix: how the instance spells the prefix (slashes) is its own business
+		hasAdd := len(endpointKeys(inst, "/ct/v1/add-chain")) > 0
+		hasPre := len(endpointKeys(inst, "/ct/v1/add-pre-chain")) > 0
+		sthKeys := endpointKeys(inst, "/ct/v1/get-sth")
+		hasSTH := len(sthKeys) == 1
+		if hasSTH {
+			b.prefix = strings.TrimSuffix(sthKeys[0], "/ct/v1/get-sth")
+		}
 		wantAdd := !c.IsMirror && !c.IsReadonly
 		if hasAdd != wantAdd || hasPre != wantAdd {
 			s.Violate("submission-endpoints", fmt.Sprintf("mirror=%v,readonly=%v", c.IsMirror, c.IsReadonly), "log %q (mirror=%v readonly=%v): add-chain present=%v add-pre-chain present=%v, want %v", c.Prefix, c.IsMirror, c.IsReadonly, hasAdd, hasPre, wantAdd)
@@ -628,7 +658,7 @@ func (w *CfgWorld) bootAndLive(s *kernel.Sim) {
 				b.be.Sequence(-1, false)
 			}
 			if b.store != nil {
-				k := w.keys[twinRE.ReplaceAllString(b.cfg.Prefix, "")]
+				k := w.keyFor(b.cfg.Prefix)
 				// the source log publishes STHs at sizes around the mirror's tree: behind, equal, ahead
 				for _, d := range []int{-2, 0, 1, 3} {
 					if t.Chance(1, 2) {
@@ -644,7 +674,7 @@ func (w *CfgWorld) bootAndLive(s *kernel.Sim) {
 			time.Sleep(time.Duration(t.Range(0, 3)) * time.Second)
 			w.reps = []*replica{{inst: b.inst}}
 			w.be = b.be
-			w.prefix = "/" + b.cfg.Prefix
+			w.prefix = b.prefix
 			op := w.auditGet("get-sth", "/ct/v1/get-sth", "", 0, 0, nil)
 			if s.Violated() {
 				return
